@@ -9,7 +9,7 @@ def contract(qual, **kw):
     """The algebra lemmas only use the conjunction/disjunction structure of sem: the sub-matcher meanings stay uninterpreted."""
     kw.setdefault('opaque_specs', SUB)
     return _contract(qual, **kw)
-from pyvc.types import INT, BOOL, STR, TSeq
+from pyvc.types import INT, BOOL, STR, TSeq, TOpt
 from pyvc.tree import NODE, CSSMATCH, SELLIST, SEL, NSMAP
 
 CTXP = dict(self=CSSMATCH, ns=NSMAP, ifr=BOOL, el=NODE)
@@ -67,3 +67,11 @@ contract('lemma.C04_cache_snoc_base', params=dict(self=CSSMATCH, old=FC, f=NODE,
 contract('lemma.C04_cache_snoc_step', params=dict(self=CSSMATCH, old=FC, f=NODE, b=NODE, i=INT), opaque_specs=['default_of'],
          requires=['0 <= i < len(old)', 'default_cache_ok(self, old, i)', 'default_cache_ok(self, old + [(f, b)], i + 1)'],
          ensures=['default_cache_ok(self, old + [(f, b)], i)'], properties=['C04'])
+
+LCT = TSeq(TTup(NODE, TOpt(STR)))
+contract('lemma.C04_lang_snoc_base', params=dict(self=CSSMATCH, old=LCT, r=NODE, v=TOpt(STR), i=INT), opaque_specs=['meta_lang', 'meta_applies'],
+         requires=['i == len(old)', 'r is not None', 'meta_applies(self, r)', 'v == meta_lang(self, r)'],
+         ensures=['lang_cache_ok(self, old + [(r, v)], i)'], properties=['C04'])
+contract('lemma.C04_lang_snoc_step', params=dict(self=CSSMATCH, old=LCT, r=NODE, v=TOpt(STR), i=INT), opaque_specs=['meta_lang', 'meta_applies'],
+         requires=['0 <= i < len(old)', 'lang_cache_ok(self, old, i)', 'lang_cache_ok(self, old + [(r, v)], i + 1)'],
+         ensures=['lang_cache_ok(self, old + [(r, v)], i)'], properties=['C04'])
